@@ -17,6 +17,23 @@ PROPS = {
         "assumptions": BASE_ASSUME + ["prime-field operations and conversions used to build/decode tower elements are checked by C01",
                                       "that each NONRESIDUE really is a non-residue is C16's obligation; the model reduces by X^k = NONRESIDUE as configured"],
     },
+    "C03": {
+        "runs": [{"bin": "mon_ec"}],
+        "assumptions": BASE_ASSUME + ["toy curves: oracle is plain u64 arithmetic over F_p / F_p[u]/(u^2-beta), independent of the repository; shipped curves: textbook affine law over field operations checked by C01/C02",
+                                      "twisted-Edwards curves whose law is not complete are exercised on the prime-order subgroup only (as the property states)"],
+    },
+    "C04": {
+        "runs": [{"bin": "mon_ec"}],
+        "assumptions": BASE_ASSUME + ["projective / field-scalar / wNAF / batch paths are exercised on points of the prime-order subgroup (CurveGroup contract; GLV overrides are only meaningful there); affine paths on every curve point",
+                                      "wNAF windows 2..10; max_scalar_size >= the scalars' bit length (documented precondition); limb slices up to N+2 limbs",
+                                      "reference k*P: MSB-first double-and-add with the textbook affine law (C03-checked)"],
+    },
+    "C05": {
+        "runs": [{"bin": "mon_ec"}],
+        "assumptions": BASE_ASSUME + ["raw big integers are below 2^MODULUS_BIT_SIZE; msm_chunks is called with equal lengths (documented preconditions)",
+                                      "naive reference sum uses the textbook law (toy curves) or C03/C04-checked + and mul_bigint (shipped groups); PairingOutput reference uses the target field's generic pow (C02)",
+                                      "uses the ark-ec `verif-hooks` feature to reach the private plain/signed bucket kernels and make_digits"],
+    },
     "C06": {
         "runs": [{"bin": "mon_pair"}],
         "assumptions": BASE_ASSUME + [
@@ -24,10 +41,39 @@ PROPS = {
             "group scalar multiplication (C04), group law (C03) and target-field mul/square/inverse/pow (C02) are checked by their own properties and are used to form operands and right-hand sides",
         ],
     },
+    "C07": {
+        "runs": [{"bin": "mon_poly"}],
+        "assumptions": BASE_ASSUME + [
+            "prime-field + - * inverse used by the Horner / product-formula oracles are checked by C01; group add/double used for group-valued coefficients by C03",
+            "coefficient vectors are no longer than the domain; a panic of MixedRadixEvaluationDomain::new on a field without a declared small subgroup is not flagged (DESIGN §7)",
+            "F::TWO_ADICITY / SMALL_SUBGROUP_* are taken as declared after checking them against the modulus (full consistency is C16's)",
+            "filter polynomials are checked for a subgroup domain and all of its sub-cosets only"],
+    },
+    "C08": {
+        "runs": [{"bin": "mon_poly"}],
+        "assumptions": BASE_ASSUME + [
+            "operands are canonical; sparse constructors receive distinct degrees and non-zero coefficients (any order)",
+            "division by the zero polynomial, Evaluations over unequal domains and FFT multiplication on a field that is not smooth enough are documented panics and never generated",
+            "domain construction and transforms used by evaluate_over_domain/interpolate are C07's; prime-field arithmetic is C01's"],
+    },
     "C11": {
         "runs": [{"bin": "mon_ff"}],
         "assumptions": BASE_ASSUME + ["fields without a square-root algorithm (Fp6 3-over-2 without SQRT_PRECOMP, Fp12 above it) are excluded, as the property states",
                                       "curve-coordinate recovery helpers are monitored by mon_ec (toy curves exhaustively)"],
+    },
+    "C13": {
+        "runs": [{"bin": "mon_h2c", "post": "pyref/check_h2c.py"}],
+        "assumptions": BASE_ASSUME + [
+            "pyref/rfc9380.py is trusted after reproducing, on every run, the RFC 9380 K.1/K.3 expand_message vectors and the 30 published hash-to-curve vectors from the exported constants",
+            "curve/isogeny constants (A', B', Z, isogeny tables, cofactor, x, r) are inputs exported from the repository (pinned by those vectors and by C16)",
+            "field arithmetic, sqrt and mul_bigint used by the in-process predicates are checked by C01/C11/C04",
+        ],
+    },
+    "C17": {
+        "runs": [{"bin": "mon_poly"}],
+        "assumptions": BASE_ASSUME + [
+            "sparse tables are given distinct indices; relabel windows do not overlap; points have exactly num_vars coordinates (>= for multivariate evaluate)",
+            "the 0-variable zero representation is accepted wherever the expected table is identically zero (DESIGN §7)"],
     },
     "C15": {
         "runs": [{"bin": "mon_ff"}],
